@@ -28,6 +28,25 @@ Theorem C03_schema :
 Proof. exact schema_facts. Qed.
 Print Assumptions C03_schema.
 
+(* The ORDER of the members in the struct encoding is tied to the source as well: the right-hand
+   sides of the assignments to [data] in GetBidHash / GetPreConfirmationHash (regenerated from
+   signer.go on every run), classified by the member they mention, are: type hash and tx hash
+   first, then amount, block number, decay start, decay end (then bid digest, bid signature), each
+   later step being append(data, ...); and the model's digest is the hash over exactly that order. *)
+Theorem C03_field_order :
+  (map classify_item c03_bid_data_chain = map Some bid_item_order /\
+   forallb appends_to_data (tl c03_bid_data_chain) = true /\
+   map classify_item c03_commit_data_chain = map Some commitment_item_order /\
+   forallb appends_to_data (tl c03_commit_data_chain) = true) /\
+  (forall K b A, bid_hash_tail K b A =
+     K (lit_prefix c03_bid_strings ++ domain_separator_of K c03_bid_strings ++
+        K (concat (map (item_bytes K c03_bid_strings b A) bid_item_order)))) /\
+  (forall K b A, commitment_hash_tail K b A =
+     K (lit_prefix c03_commit_strings ++ domain_separator_of K c03_commit_strings ++
+        K (concat (map (item_bytes K c03_commit_strings b A) commitment_item_order)))).
+Proof. exact field_order_facts. Qed.
+Print Assumptions C03_field_order.
+
 (* For every hash function K, every tx-hash string (any bytes), every spelling of an amount A
    in [0,2^64) accepted by big.Int.SetString, and block number / decay timestamps in [0,2^63):
    GetBidHash succeeds and returns the generic EIP-712 hash of the typed-data message
